@@ -110,9 +110,9 @@ const INVALID_GAPS: [GapSpec; 6] = [
 ];
 
 /// MILP-biased weights over `generate::ALL_FAMILIES`.
-const C15_WEIGHTS: [u64; 15] = [22, 10, 8, 12, 14, 5, 2, 4, 5, 4, 4, 4, 2, 2, 2];
+const C15_WEIGHTS: [u64; 16] = [22, 10, 8, 12, 14, 5, 2, 4, 5, 4, 4, 4, 2, 2, 2, 1];
 /// Everything, for the solver-agreement worlds.
-const C0405_WEIGHTS: [u64; 15] = [6, 4, 3, 8, 12, 18, 8, 6, 4, 5, 4, 8, 8, 4, 2];
+const C0405_WEIGHTS: [u64; 16] = [6, 4, 3, 8, 12, 18, 8, 6, 4, 5, 4, 8, 8, 4, 2, 2];
 
 fn c15_limits(tier: Tier, rng: &mut Rng) -> GenLimits {
     GenLimits {
